@@ -205,15 +205,6 @@ impl InterfaceInner {
             return None;
         }
 
-        let (next_header, ip_payload) = if ipv6_repr.next_header == IpProtocol::HopByHop {
-            match self.process_hopbyhop(ipv6_repr, ipv6_packet.payload()) {
-                HopByHopResponse::Discard(e) => return e,
-                HopByHopResponse::Continue(next) => next,
-            }
-        } else {
-            (ipv6_repr.next_header, ipv6_packet.payload())
-        };
-
         if !self.has_ip_addr(ipv6_repr.dst_addr)
             && !self.has_multicast_group(ipv6_repr.dst_addr)
             && !ipv6_repr.dst_addr.is_loopback()
@@ -239,6 +230,18 @@ impl InterfaceInner {
             net_trace!("Rejecting IPv6 packet; no assigned address");
             return None;
         }
+
+        // Extension headers are only looked at in packets addressed to this interface: an unknown
+        // hop-by-hop option in somebody else's packet is none of its business (and must not be
+        // answered in that host's name).
+        let (next_header, ip_payload) = if ipv6_repr.next_header == IpProtocol::HopByHop {
+            match self.process_hopbyhop(ipv6_repr, ipv6_packet.payload()) {
+                HopByHopResponse::Discard(e) => return e,
+                HopByHopResponse::Continue(next) => next,
+            }
+        } else {
+            (ipv6_repr.next_header, ipv6_packet.payload())
+        };
 
         // A raw socket is selected by the upper-layer protocol, also when a hop-by-hop header
         // precedes it, and is handed the packet as it arrived: its header together with all of
